@@ -26,6 +26,11 @@ lower-case hex (`-` = empty); a digest is its packed string (`Digest.String()`).
     dai <d>* | <d>*                  GetDifferenceAndIntersection    -> onlyA | both | onlyB
     rmempty <d>*                     RemoveEmptyBlob                 -> <d>* | empty
     part <d>*                        PartitionByInstanceName         -> <d>* (| <d>*)* | empty
+    sx <d>* (| <d>*)* :: <instr> (; <instr>)*   a program over a register file of sets: the base sets are
+                                     registers 0.., every instruction appends its results as new registers
+                                     (`same i`, `part i`, `rme i`, `dai i j`, `uni i j ...`), so that later
+                                     instructions run on *derived* sets (sub-slices, aliases, results of
+                                     fast paths of the real code)  -> all registers, `|`-separated
 
 Set arguments of union/dai/rmempty/part must be sorted and duplicate free (they are values of
 type `Set`); anything else is `bad-op`.
@@ -85,6 +90,36 @@ def withDigest (i e h z : String) (f : Str → String) : String :=
   | none => "bad-op"
   | some (.error err) => showRes (.error err)
   | some (.ok d) => f d
+
+/-- Split a word list at a separator token. -/
+def splitAt (sep : String) (ws : List String) : List (List String) :=
+  let rec go : List String → List String → List (List String) → List (List String)
+    | [], cur, acc => (cur.reverse :: acc).reverse
+    | w :: rest, cur, acc => if w == sep then go rest [] (cur.reverse :: acc) else go rest (w :: cur) acc
+  go ws [] []
+
+/-- One instruction of a set program: it reads registers and appends its results as new
+registers.  `none` = malformed instruction. -/
+def sxInstr (regs : List (List Str)) : List String → Option (List (List Str))
+  | ["same", i] => do let i ← nat? i; let a ← regs[i]?; pure (regs ++ [a])
+  | ["part", i] => do let i ← nat? i; let a ← regs[i]?; pure (regs ++ partitionByInstanceName a)
+  | ["rme", i] => do let i ← nat? i; let a ← regs[i]?; pure (regs ++ [removeEmptyBlob a])
+  | ["dai", i, j] => do
+    let i ← nat? i; let j ← nat? j; let a ← regs[i]?; let b ← regs[j]?
+    let r := differenceAndIntersection a b
+    pure (regs ++ [r.1, r.2.1, r.2.2])
+  | "uni" :: is => do
+    let is ← is.mapM nat?
+    let sets ← is.mapM fun i => regs[i]?
+    pure (regs ++ [union sets])
+  | _ => none
+
+def sxRun (regs : List (List Str)) : List (List String) → Option (List (List Str))
+  | [] => some regs
+  | ins :: rest =>
+    match sxInstr regs ins with
+    | some regs' => sxRun regs' rest
+    | none => none
 
 def stepWords : List String → String
   | ["inst", s] =>
@@ -203,6 +238,16 @@ def stepWords : List String → String
       let gs := partitionByInstanceName s
       if gs.isEmpty then "empty" else " | ".intercalate (gs.map showList)
     | none => "bad-op"
+  | "sx" :: ws =>
+    match splitAt "::" ws with
+    | [base, prog] =>
+      match (splitBar base).mapM set? with
+      | none => "bad-op"
+      | some regs =>
+        match sxRun regs ((splitAt ";" prog).filter (fun i => !i.isEmpty)) with
+        | some out => " | ".intercalate (out.map showList)
+        | none => "bad-op"
+    | _ => "bad-op"
   | _ => "bad-op"
 
 def step (s : Unit) (line : String) : Unit × String := (s, stepWords (words line))
